@@ -114,6 +114,9 @@ class HashedIterable(Generic[T]):
         """
         yield from self.values.values()
         for v in self.iterable:
+            if v.id_ in self.values:
+                # an object that is listed again is the same value, the first pass behaves like every later pass.
+                continue
             self.values[v.id_] = v
             yield v
 
